@@ -107,3 +107,85 @@ Definition xmismatches (pr : proj) (l : list xcase) : list nat := xmismatches_fr
 
 (* for diagnosis: what the model computed *)
 Definition model_status (c : xcase) : N := match run_model c with (Ok _, _) => 0 | (Err _, _) => 1 | (Panic, _) => 2 end%N.
+
+(* ------------------------------------------------------------------------------------------------
+   Narrow state projections.  [p_state] compares the complete raw storage of every changed account;
+   a property whose theorems speak only about balances, or only about roles/flags/counters, selects
+   the corresponding part of the state with an [sproj], so that a change to an observable outside the
+   property cannot disturb its check. *)
+Record sproj := {
+  sp_tok_bytes : bool;   (* token cells (prefix ELRONDesdt): raw bytes *)
+  sp_balance : bool;     (* token cells: decoded value *)
+  sp_flags : bool;       (* token cells: frozen flag of the decoded entry; pause flag of the raw 2-byte value *)
+  sp_meta : bool;        (* token cells: decoded type and metadata *)
+  sp_roles : bool;       (* role cells (prefix ELRONDroleesdt): raw bytes *)
+  sp_counters : bool;    (* counter cells (prefix ELRONDnonce): raw bytes *)
+  sp_other : bool;       (* every other key: raw bytes *)
+  sp_fields : bool }.    (* balance, owner, user name, developer reward of the account *)
+Definition sp_all := {| sp_tok_bytes := true; sp_balance := true; sp_flags := true; sp_meta := true;
+                        sp_roles := true; sp_counters := true; sp_other := true; sp_fields := true |}.
+Definition sp_balances := {| sp_tok_bytes := false; sp_balance := true; sp_flags := false; sp_meta := false;
+                             sp_roles := false; sp_counters := false; sp_other := false; sp_fields := false |}.
+Definition sp_balances_flags := {| sp_tok_bytes := false; sp_balance := true; sp_flags := true; sp_meta := false;
+                                   sp_roles := false; sp_counters := false; sp_other := false; sp_fields := false |}.
+Definition sp_authority := {| sp_tok_bytes := false; sp_balance := false; sp_flags := true; sp_meta := false;
+                              sp_roles := true; sp_counters := true; sp_other := false; sp_fields := true |}.
+Definition sp_nonces := {| sp_tok_bytes := false; sp_balance := false; sp_flags := false; sp_meta := true;
+                           sp_roles := true; sp_counters := true; sp_other := false; sp_fields := false |}.
+Definition sp_metadata := {| sp_tok_bytes := false; sp_balance := false; sp_flags := false; sp_meta := true;
+                             sp_roles := false; sp_counters := false; sp_other := false; sp_fields := false |}.
+
+Definition opt_eqb {A} (f : A -> A -> bool) (a b : option A) : bool :=
+  match a, b with Some x, Some y => f x y | None, None => true | _, _ => false end.
+Definition metadata_eqb (a b : metadata) : bool :=
+  (md_nonce a =? md_nonce b)%N && beqb (md_name a) (md_name b) && beqb (md_creator a) (md_creator b)
+  && (md_royalties a =? md_royalties b)%N && beqb (md_hash a) (md_hash b)
+  && list_eqb beqb (md_uris a) (md_uris b) && beqb (md_attributes a) (md_attributes b).
+Definition dec_cell (b : bytes) : option token := match b with [] => None | _ => dec_token b end.
+Definition cell_balance (b : bytes) : Z :=
+  match dec_cell b with Some t => match t_value t with Some v => v | None => 0%Z end | None => 0%Z end.
+Definition cell_frozen (b : bytes) : bool := match dec_cell b with Some t => frozen_props (t_props t) | None => false end.
+Definition cell_meta (b : bytes) : option (N * option metadata) :=
+  match dec_cell b with Some t => Some (t_type t, t_meta t) | None => None end.
+Definition typed_meta_eqb (a b : N * option metadata) : bool :=
+  (fst a =? fst b)%N && opt_eqb metadata_eqb (snd a) (snd b).
+
+Definition cell_matches (sp : sproj) (k mv iv : bytes) : bool :=
+  if prefix_of RP k then negb (sp_roles sp) || beqb mv iv
+  else if prefix_of NP k then negb (sp_counters sp) || beqb mv iv
+  else if prefix_of P k then
+    (negb (sp_tok_bytes sp) || beqb mv iv)
+    && (negb (sp_balance sp) || (cell_balance mv =? cell_balance iv)%Z)
+    && (negb (sp_flags sp) || (Bool.eqb (cell_frozen mv) (cell_frozen iv) && Bool.eqb (paused_val mv) (paused_val iv)))
+    && (negb (sp_meta sp) || opt_eqb typed_meta_eqb (cell_meta mv) (cell_meta iv))
+  else negb (sp_other sp) || beqb mv iv.
+
+Fixpoint lookup_listing (l : list (bytes * bytes)) (k : bytes) : bytes :=
+  match l with [] => [] | (k', v) :: r => if beqb k k' then v else lookup_listing r k end.
+Definition store_matches_s (sp : sproj) (s : store) (listing : list (bytes * bytes)) : bool :=
+  forallb (fun kv => cell_matches sp (fst kv) (sget s (fst kv)) (snd kv)) listing
+  && forallb (fun k => cell_matches sp k (sget s k) (lookup_listing listing k)) (skeys s).
+Definition acct_matches_s (sp : sproj) (a : account) (l : acctl) : bool :=
+  store_matches_s sp (a_store a) (al_store l)
+  && (negb (sp_fields sp) || ((a_balance a =? al_balance l)%Z && beqb (a_owner a) (al_owner l)
+                              && beqb (a_username a) (al_username l) && (a_devreward a =? al_reward l)%Z)).
+Definition state_matches_s (sp : sproj) (s : mstate) (pre post : list (bytes * acctl)) : bool :=
+  forallb (fun kv => acct_matches_s sp (acct s (fst kv)) (snd kv)) post
+  && forallb (fun kv => acct_matches_s sp (snd kv)
+                          (if has_acctl post (fst kv) then find_acctl post (fst kv) else find_acctl pre (fst kv))) (accts s).
+
+Definition check_xcase_s (pr : proj) (sp : sproj) (c : xcase) : bool :=
+  match run_model c with
+  | (Ok o, s) =>
+    (x_status c =? 0)%N && out_matches pr o (x_out c)
+    && (negb (p_state pr) || state_matches_s sp s (x_pre c) (x_post c))
+    && (negb (p_deps pr) || Nat.eqb (calls s) (x_deps c))
+  | (Err _, _) => (x_status c =? 1)%N
+  | (Panic, _) => (x_status c =? 2)%N
+  end.
+Fixpoint xmismatches_s_from (pr : proj) (sp : sproj) (i : nat) (l : list xcase) : list nat :=
+  match l with
+  | [] => []
+  | c :: r => if check_xcase_s pr sp c then xmismatches_s_from pr sp (S i) r else i :: xmismatches_s_from pr sp (S i) r
+  end.
+Definition xmismatches_s (pr : proj) (sp : sproj) (l : list xcase) : list nat := xmismatches_s_from pr sp 0 l.
